@@ -155,3 +155,14 @@ pub fn child_exit(a: &Args) {
     let out = rt.block_on(ractor_cluster::node::node_session::verif_probe::verif_child_exit(a.str("child"), a.str("event")));
     println!("out={}", out.replace('=', "~"));
 }
+
+/// node_ready servers=<0|1,..> nonces=<..> auth=<ids>
+pub fn ready(a: &Args) {
+    let srv = a.list_u128("servers");
+    let non = a.list_u128("nonces");
+    let sessions: Vec<(bool, u64)> = (0..srv.len()).map(|i| (srv[i] != 0, non[i] as u64)).collect();
+    let auth: Vec<u64> = a.list_u128("auth").iter().map(|x| *x as u64).collect();
+    let rt = tokio::runtime::Builder::new_current_thread().enable_time().build().unwrap();
+    let r = rt.block_on(np::verif_ready(&sessions, &auth));
+    println!("reported={}", r.iter().map(|x| x.to_string()).collect::<Vec<_>>().join(","));
+}
